@@ -15,7 +15,7 @@ for path in sorted(glob.glob(os.path.join(HERE, 'vlib', 'props', 'c[0-9]*_*.py')
     except Exception:
         evals = nt = wall = '?'; units = ''
     seeds = []
-    for suffix in ('', 'b'):
+    for suffix in ('', 'b', 'c', 'd'):
         mp = os.path.join(HERE, 'seeded', pid + suffix, 'meta.json')
         if not os.path.exists(mp):
             continue
@@ -23,6 +23,8 @@ for path in sorted(glob.glob(os.path.join(HERE, 'vlib', 'props', 'c[0-9]*_*.py')
         cr = meta.get('check_result', {})
         if meta.get('status', '').startswith('superseded'):
             s = 'superseded'
+        elif meta.get('status', '').startswith('not caught by design'):
+            s = 'not caught by design'
         elif cr.get('exit') == 1:
             b = (cr.get('first_buckets') or [''])[0]
             b = b.replace('bucket ', '').split(':')[0][:45]
